@@ -36,10 +36,10 @@ def _worker(scratch, unit):
 
 
 def run_one(m, base_failed):
-    src_root = os.path.join(extract.REPO, "quiver-core", "src")
     scratch = tempfile.mkdtemp(prefix="verif_mut_", dir=os.path.join(ROOT, "build"))
     try:
-        shutil.copytree(src_root, os.path.join(scratch, "quiver-core", "src"))
+        for crate in ("quiver-core", "quiver-environment"):
+            shutil.copytree(os.path.join(extract.REPO, crate, "src"), os.path.join(scratch, crate, "src"))
         p = os.path.join(scratch, m["file"])
         with open(p) as f:
             s = f.read()
